@@ -330,3 +330,42 @@ for _p in ("C08", "C05"):
     PROPS[_p].update({"run": any_run, "case": any_case, "run_case": any_run_case, "shrink": any_shrink})
 PROPS["C08"]["streams"] = PROPS["C08"]["streams"] + [CUTS_G, CUTS_CH, CUTS_ENF]
 PROPS["C05"]["streams"] = PROPS["C05"]["streams"] + [CUTS_ENF]
+
+
+# ------------------------------------------------------------------ C12: EDF/FIFO with enforcement under contention
+# tight deadlines, several graphs and invocations, runtimes of different length: hopeless tasks sort after
+# feasible ones (a long task with a later deadline can be hopeless while a short earlier one is not)
+G_ENF_TIGHT = {"profile": "greedy", "opts": {"p_batch_loader": 0, "p_enforce": 1.0, "greedy_policies": ["EDF", "FIFO"],
+                                             "deadline_variances": [[0, 0], [0, 0], [0, 20], [10, 50]],
+                                             "max_runtime": 9, "graphs": 3, "p_drop": 0.3}}
+PROPS["C12"]["streams"] = [G_ENF, G_ENF_TIGHT, G_ENF_TIGHT, PLAN_ENF, PLAN_ENF, CW]
+PROPS["C12"]["runs"] = {"quick": 1200, "thorough": 40000}
+# ------------------------------------------------------------------ C11: running parents that have made progress
+PLAN_TG_LONG = {"profile": "plan", "opts": dict(world.PLAN_OPTS, policy="TetriSchedGurobi", max_runtime=7,
+                                                lookaheads=[2, 5, 20], frequencies=[1, 2, -1],
+                                                policy_opts={"discretization": 1})}
+PLAN_ILP_LONG = {"profile": "plan", "opts": dict(world.PLAN_OPTS, policy="ILP", max_runtime=7,
+                                                 lookaheads=[2, 5, 20], frequencies=[1, 2, -1])}
+PROPS["C11"]["streams"] = PROPS["C11"]["streams"] + [PLAN_TG_LONG, PLAN_ILP_LONG]
+PROPS["C11"]["runs"] = {"quick": 1000, "thorough": 30000}
+
+# ------------------------------------------------------------------ mixed-unit worlds (ms grid, deadlines in us/ms/s)
+G_UNITS = {"profile": "greedy", "opts": {"p_batch_loader": 0, "single_worker_pools": True, "time_scale": 1000}}
+G_UNITS_ENF = {"profile": "greedy", "opts": {"p_batch_loader": 0, "time_scale": 1000, "p_enforce": 0.8, "p_drop": 0.4}}
+# (chaos on the ms grid is not used: a placement on a full worker is retried every microsecond, i.e. thousands
+# of times per scaled time unit)
+PROPS["C13"]["streams"] = [G_SINGLE, G_SINGLE, G_PRE, G_UNITS]
+PROPS["C12"]["streams"] = PROPS["C12"]["streams"] + [G_UNITS_ENF]
+PROPS["C08"]["streams"] = PROPS["C08"]["streams"] + [G_UNITS_ENF]
+PROPS["C03"]["streams"] = PROPS["C03"]["streams"] + [G_UNITS_ENF]
+PROPS["C16"]["streams"] = PROPS["C16"]["streams"] + [G_UNITS_ENF]
+
+# ------------------------------------------------------------------ C07: several conditionals per graph, resolved at submission
+G_COND_RESOLVE = {"profile": "greedy", "opts": {"p_batch_loader": 0, "p_conditionals": 1.0, "p_resolve": 1.0,
+                                                "p_shuffle_nodes": 0.8, "shapes": ["sp", "sp", "forest"], "max_nodes": 10,
+                                                "max_conds": 3}}
+PROPS["C07"]["streams"] = [G_COND, CH_COND, G_COND_RESOLVE]
+
+# ------------------------------------------------------------------ work-conserving harness policy with latency (measured only)
+WC = {"profile": "wc", "opts": {"p_batch_loader": 0}}
+PROPS["C05"]["streams"] = PROPS["C05"]["streams"] + [WC]
